@@ -351,6 +351,14 @@ def gen_tick(rng, run, bad=None):
             tick['asg'].append([[rng.choice(free)] if free else [0], 1, 1, 3, 0])
         a = tick['asg'][-1]
         pool = a[4]
+        if bad in ('asg-cpu+1', 'asg-ram+') and not any(x[4] == pool for x in tick['asg'][:-1]):
+            # make it a batch of two for that pool whose first member fits: a rejected batch must leave nothing
+            free = [i for i, o in enumerate(w.ops) if st[i] == 0 and i not in taken
+                    and all(st[w.gid[q]] == 4 for q in o.parents)]
+            if free and ex.pools[pool].avail_cpu_pool >= 2 and (r['over'] or ex.pools[pool].avail_ram_pool >= 0.25):
+                o = rng.choice(free)
+                tick['asg'].insert(len(tick['asg']) - 1, [[o], 1, 0.125, PRIO_VAL[w.ops[o].pipeline.priority], pool])
+                taken.add(o)
         if bad == 'asg-cpu+1':
             a[1] = ex.pools[pool].avail_cpu_pool - sum(x[1] for x in tick['asg'][:-1] if x[4] == pool) + 1
         elif bad == 'asg-ram+':
@@ -386,12 +394,12 @@ BAD_KINDS = ['susp-mid', 'susp-dup', 'susp-unknown', 'susp-suspending', 'susp-wr
              'asg-pool', 'asg-empty', 'asg-cpu0', 'asg-ram0', 'asg-busy', 'asg-parent', 'asg-order', 'asg-two']
 
 
-def gen_history(rng, gen='G-exec', overcommit=None, max_ticks=None, p_bad=0.3, bad_kinds=None):
+def gen_history(rng, gen='G-exec', overcommit=None, max_ticks=None, p_bad=0.3, bad_kinds=None, bad_early=False):
     cfg = gen_config(rng, overcommit)
     cfg['gen'] = gen
     run = ExecRun(cfg)
     n = max_ticks or rng.randint(15, 70)
-    bad_at = rng.randrange(3, n) if rng.random() < p_bad else None
+    bad_at = (rng.randrange(0, 6) if bad_early else rng.randrange(3, n)) if rng.random() < p_bad else None
     bad_kind = rng.choice(bad_kinds or BAD_KINDS)
     idle = 0
     for i in range(n):
@@ -441,5 +449,42 @@ def gen_twins(rng, gen='G-exec-twins'):
         cfg['ticks'].append(t)
         ent = run.step(t)
         if ent['err'] or all(x in (4, 5) for x in run.w.states()):
+            break
+    return cfg, run
+
+
+def gen_burst(rng, gen='G-exec-burst'):
+    """overcommitted pool, 3-8 containers started together whose demand jumps in the same tick to different
+    levels (and different allocations), so that the pool-level killer needs several victims among many
+    candidates; some containers also exceed their own limit in that tick, some finish in it, ties included"""
+    tps = rng.choice([1, 2, 10])
+    n = rng.randint(3, 8)
+    cap = rng.choice([8, 16, 32])
+    levels = [rng.choice([0.5, 1, 2, 3, 4, 5, 6, 8]) * cap / 8.0 for _ in range(n)]
+    if rng.random() < 0.4:
+        levels[rng.randrange(n)] = levels[rng.randrange(n)]         # a tie
+    pre = rng.randint(1, 3)
+    pipes = [(rng.choice([1, 2, 3]), [[]]) for _ in range(n)]
+    segs = []
+    for m in levels:
+        post = rng.choice([0, 1, 2, 4])
+        sg = [dict(baseline_cpu_seconds=float(pre) / tps, cpu_scaling='const', storage_read_gb=0.0,
+                   memory_gb=float(rng.choice([0, 0.25, 0.5])))]
+        sg.append(dict(baseline_cpu_seconds=float(max(1, post)) / tps, cpu_scaling='const', storage_read_gb=0.0,
+                       memory_gb=float(m)))
+        segs.append([sg])
+    cfg = dict(gen=gen, tps=tps, over=1, multi=rng.choice([0, 1]), npools=rng.choice([1, 1, 2]), cpu=16, ram=cap,
+               pipes=pipes, segs=segs, ticks=[], bad=None)
+    run = ExecRun(cfg)
+    allocs = [rng.choice([cap, cap, cap / 2.0, levels[k], max(0.5, levels[k] - 0.5)]) for k in range(n)]
+    t0 = dict(susp=[], asg=[([k], 1, allocs[k], pipes[k][0], rng.randrange(cfg['npools']) if rng.random() < 0.2 else 0)
+                            for k in range(n)])
+    cfg['ticks'].append(t0)
+    run.step(t0)
+    for _ in range(pre + 8):
+        t = dict(susp=[], asg=[])
+        cfg['ticks'].append(t)
+        ent = run.step(t)
+        if ent['err'] or not any(p['active'] for p in ent['pools']):
             break
     return cfg, run
